@@ -112,7 +112,50 @@ func discharge(obls []*Obligation, scratch string, timeout int, thorough bool) *
 	}
 	byHash := map[string]*job{}
 	var jobs []*job
+	// batches first: one query for the conjunction of a group of goals
+	{
+		groups := map[string][]*Obligation{}
+		var order []string
+		for _, o := range obls {
+			if o.BatchSMT != "" {
+				if _, ok := groups[o.BatchSMT]; !ok {
+					order = append(order, o.BatchSMT)
+				}
+				groups[o.BatchSMT] = append(groups[o.BatchSMT], o)
+			}
+		}
+		var mu sync.Mutex
+		sem := make(chan struct{}, 12)
+		var wg sync.WaitGroup
+		for _, q := range order {
+			wg.Add(1)
+			go func(q string) {
+				defer wg.Done()
+				sem <- struct{}{}
+				defer func() { <-sem }()
+				h := fmt.Sprintf("%x", sha1.Sum([]byte(q)))
+				file := filepath.Join(scratch, "batch-"+h+".smt2")
+				_ = os.WriteFile(file, []byte(q), 0o644)
+				r := race(file, solvers[:1], 5)
+				mu.Lock()
+				st.secs += r.secs
+				st.queries++
+				if r.status == "unsat" {
+					for _, o := range groups[q] {
+						o.Status, o.Solver, o.Secs = "unsat", r.solver+"(batch)", r.secs/float64(len(groups[q]))
+						o.batchDone = true
+						st.bySolver[r.solver]++
+					}
+				}
+				mu.Unlock()
+			}(q)
+		}
+		wg.Wait()
+	}
 	for _, o := range obls {
+		if o.batchDone {
+			continue
+		}
 		if o.SMT == "" {
 			if o.Trivial {
 				st.bySolver["simplifier"]++
